@@ -126,7 +126,16 @@ def fingerprint(lib):
                   rmse=dict(T_ref=_num(rm.T_ref), H=_num(rm.ND_H_ref), S=_num(rm.ND_S_ref),
                             cp=sorted([_num(t), _num(c)] for t, c in (rm.ND_Cp_data or {}).items())))
     sch = lib.scheme
-    scheme = dict(patterns=[[p['center_name'], p['periph_name'], str(p['connectivity'])[:0]] for p in sch.patterns],
-                  n_patterns=len(sch.patterns), n_other=len(sch.other_descriptors),
-                  remaps={str(k): [[float(a), str(b)] for a, b in v] for k, v in (sch.remaps or {}).items()})
+
+    def _len(x):
+        return len(x) if hasattr(x, '__len__') else -1      # never iterate: that could consume a lazily built table
+
+    # the scheme's tables are internal attributes: whatever of them is not there (or is shaped differently) is left out of the
+    # fingerprint rather than breaking the harness - the decompositions themselves are compared elsewhere
+    try:
+        scheme = dict(patterns=[[p['center_name'], p['periph_name']] for p in sch.patterns] if hasattr(sch.patterns, '__len__') else None,
+                      n_patterns=_len(sch.patterns), n_other=_len(sch.other_descriptors),
+                      remaps={str(k): [[float(a), str(b)] for a, b in v] for k, v in (sch.remaps or {}).items()})
+    except Exception as e:
+        scheme = dict(unavailable=type(e).__name__)
     return dict(groups=groups, uq=uq, scheme=scheme)
